@@ -42,11 +42,11 @@ def run(ctx):
     ctx.instances["G5"] = stats["typed_node"] + stats["typed_node_seq"]
     for h in hits:
         ctx.viol("G5", h.func, h.node, "identity-only rule %s in the resolver: %s" % (h.rule, h.why))
-    ctx.floor("G1", 7)
+    ctx.floor("G1", 5)
     ctx.floor("G2", 2)
     ctx.floor("G3", 2)
     ctx.floor("G4", 3)
     ctx.floor("G5", 40)
-    ctx.floor("R1", 4)
+    ctx.floor("R1", 2)
     ctx.floor("R2", 8)
     ctx.extra["functions_reachable_from_glob"] = [f.qual for f in funcs]
